@@ -140,6 +140,12 @@ class MulticlassCarver(BaseCarver):
         X_dev: DataFrame = None,
         y_dev: Series = None,
     ) -> None:
+        # a fitted carver is not fitted anew (checked first, so that a refused call modifies nothing)
+        assert not self.is_fitted, (
+            " - [MulticlassCarver] This Carver has already been fitted. Fitting it anew could break "
+            "established orders. Please initialize a new one."
+        )
+
         # preparing datasets and checking for wrong values
         x_copy, y_copy, x_dev_copy, y_dev_copy = self._prepare_data(X, y, X_dev, y_dev)
 
